@@ -80,6 +80,11 @@ var preFeed string
 // onPrimary: the next session leaves the alternate screen after start-up
 var onPrimary bool
 
+// withhold: the next session's console loses one of the emulator's start-up replies, so that one of
+// New()'s timers fires: "cpr" = the cursor-position report (the 50 ms timer of the explicit-width probe),
+// "da1" = the DA1 reply (the 3 s context of the collection loop)
+var withhold string
+
 func feedEmu(emu *term.Model, str string) {
 	parser := ansi.NewParser(strings.NewReader(str))
 	for seq := range parser.Next() {
@@ -135,6 +140,11 @@ func newSession(r *hx.Run, rng *gen.Rng, id string, w, h int, rgb, su, ew, sync,
 			}
 			emu.VerifFeed(seq)
 			rep := emu.VerifTakeReplies()
+			if recording && ((withhold == "cpr" && strings.HasSuffix(rep, "R") && strings.HasPrefix(rep, "\x1b[")) ||
+				(withhold == "da1" && strings.HasPrefix(rep, "\x1b[?62"))) {
+				rep = "" // lost on the way: the timer fires
+				r.Count("reply-withheld-" + withhold)
+			}
 			if recording {
 				op := emuh.OpLine(seq)
 				if strings.HasPrefix(op, "dcs") {
@@ -188,7 +198,7 @@ func newSession(r *hx.Run, rng *gen.Rng, id string, w, h int, rgb, su, ew, sync,
 	// the reply exchange: query by query (model of the emulator's reply writers vs the real replies),
 	// then the capabilities Vaxis derived (model of handleSequence/New on the modelled replies vs real)
 	// (the exchange does not depend on the history that follows: every 8th session records it)
-	if sessions%8 == 0 {
+	if sessions%8 == 0 && withhold == "" {
 		if attach {
 			bg := host.QueryBackground().Params()
 			if len(bg) == 3 {
@@ -205,7 +215,13 @@ func newSession(r *hx.Run, rng *gen.Rng, id string, w, h int, rgb, su, ew, sync,
 		r.Count("reply-exchange-recorded")
 	}
 	sessions++
-	r.Emit("emucaps "+ct, string(det))
+	if withhold != "" {
+		// a timer fired: emu_dialogue_caps (probe timed out: still exact) / emu_dialogue_caps_within (3 s
+		// context expired: nothing understood that the emulator does not implement), on the implementation
+		r.Emit("emucapsto "+ct+" "+withhold, string(det))
+	} else {
+		r.Emit("emucaps "+ct, string(det))
+	}
 	s.ew = c["explicitWidth"]
 	if su {
 		// styled underlines: implemented by the emulator (4:n, 58:…, 59) but never advertised (no XTGETTCAP /
@@ -739,6 +755,25 @@ func run(r *hx.Run) error {
 		s.render(false)
 		s.close()
 		r.Count("scenario-styled-underlines")
+	}
+	// the timers of New(): the cursor-position report is lost (the 50 ms timer of the probe fires; the
+	// capabilities are still exact), the DA1 reply is lost (the 3 s context expires; the capabilities are a
+	// subset: nothing is understood that the emulator does not implement); a frame is rendered afterwards
+	for i, wh := range []string{"cpr", "da1"} {
+		withhold = wh
+		s, err := newSession(r, rng, "timer-"+wh, 5, 2, i == 1, false, false, false, true)
+		withhold = ""
+		if err != nil {
+			return err
+		}
+		win := s.vx.Window()
+		c := ch("t")
+		c.Style = vaxis.Style{Foreground: vaxis.RGBColor(200, 10, 30), UnderlineStyle: vaxis.UnderlineCurly, Attribute: vaxis.AttrBold}
+		win.SetCell(1, 1, c)
+		win.SetCell(3, 0, ch("世"))
+		s.render(false)
+		s.close()
+		r.Count("scenario-timer-" + wh)
 	}
 	// the application on the PRIMARY screen across resizes: what a shell left there is reflowed by every
 	// resize and overwritten by the refresh frame
